@@ -65,6 +65,7 @@ func allProps() []PropSpec {
 				{Func: "ZZ_C05_REQ", Pkg: "pkg/protocol", Quick: map[string]int{"K": 2, "V": 3}, Thorough: map[string]int{"K": 3, "V": 4}, Covers: []string{"reached-assert"}},
 				{Func: "ZZ_C05_RESP", Pkg: "pkg/protocol", Quick: map[string]int{"K": 2, "V": 3}, Thorough: map[string]int{"K": 3, "V": 4}, Covers: []string{"reached-assert"}},
 				{Func: "ZZ_C05_TRAILER", Pkg: "pkg/protocol", Quick: map[string]int{"K": 2, "V": 3}, Thorough: map[string]int{"K": 3, "V": 4}, Covers: []string{"reached-assert", "accepted"}},
+				{Func: "ZZ_C05_GEN", Pkg: "pkg/protocol", Quick: map[string]int{"V": 3}, Thorough: map[string]int{"V": 5}, Covers: []string{"reached-assert"}, Note: "dispatch table generated on every run from the method sets of RequestHeader/ResponseHeader/Cookie/Trailer in /repo: every exported Set*/Add* method with string/[]byte parameters, each text parameter in turn symbolic"},
 				{Func: "ZZ_C05_CTX", Pkg: "pkg/protocol/http1", Quick: map[string]int{"V": 2}, Thorough: map[string]int{"V": 3}, Covers: []string{"reached-assert"}, Note: "RequestContext helpers: Header, SetCookie (name/value/path/domain), Redirect, SetContentType"},
 			},
 			Assumptions: []string{"entry points are the hand-listed setters in harness/pkg/protocol/c05.go (12 request, 12 response, trailer Set)", "request method and request-target are not header-setting APIs and are outside the property's list", "values/keys longer than the bounds are outside the claim"},
